@@ -394,7 +394,10 @@ def _flatten_chunk(rec, n, it, trial, summary):
     # substitute t := J - j0 and require independence from the chunk index
     v2 = subst_val(val, {tv: X.var(J) - j0})
     if iv in lm_fv(v2):
-        # after re-indexing by the global segment number the stored value still mentions the chunk: it is not a function of the segment alone
+        # after re-indexing by the global segment number the stored value still mentions the chunk.  It is certainly not a function of the
+        # segment alone when it aggregates over the chunk's extent (a sum whose length depends on the chunk); a mere case split on the chunk
+        # length (fast paths for short chunks) may still compute the same values and stays undecided
+        if not _aggregates_over(v2, iv): return rec
         return (((J, hi),), (X.var(J),), Mismatch("the value stored for a segment depends on the chunk it is processed in (e.g. a mean taken over the chunk's "
                                                     "segments instead of over the segment's own samples): the statistic changes with the chunk size"))
     summary.setdefault("chunked", []).append(J)
@@ -403,6 +406,22 @@ def _flatten_chunk(rec, n, it, trial, summary):
 
 def lm_fv(v):
     return _fv(v)
+
+
+def _aggregates_over(v, name):
+    """does the value contain a sum whose number of terms depends on `name`?"""
+    from .values import PV, Arr
+    if isinstance(v, PV): return _aggregates_over(v.hi, name) or _aggregates_over(v.lo, name)
+    if isinstance(v, Arr): return _aggregates_over(v.body, name)
+    if isinstance(v, tuple): return any(_aggregates_over(e, name) for e in v)
+    if not isinstance(v, X): return False
+    def walk(x):
+        for a in x.all_atoms():
+            if a.tag == "sum":
+                cnt, body = a.args
+                if isinstance(cnt, X) and name in cnt.fv(): return True
+        return False
+    return walk(v)
 
 
 # ---------------------------------------------------------------------------- CUDA launch
